@@ -157,13 +157,14 @@ func GenRule(t *rapid.T, label string) RuleSpec {
 func GenGroup(t *rapid.T, label string, minRules, maxRules int) GroupSpec {
 	g := GroupSpec{Name: label}
 	if rapid.IntRange(0, 3).Draw(t, label+".hasint") == 0 {
-		g.Interval = rapid.SampledFrom([]string{"1m", "30s", "5m"}).Draw(t, label+".int")
+		g.Interval = rapid.SampledFrom([]string{"1m", "30s", "5m", "1m30s", "1h", "90s", "1d"}).Draw(t, label+".int")
 	}
 	if rapid.IntRange(0, 5).Draw(t, label+".haslimit") == 0 {
-		g.Limit = rapid.SampledFrom([]string{"0", "10", "1000"}).Draw(t, label+".limit")
+		// every YAML spelling of an integer is a valid limit
+		g.Limit = rapid.SampledFrom([]string{"0", "10", "1000", "0x10", "1_000", "0o17", "0b101", "+5"}).Draw(t, label+".limit")
 	}
 	if rapid.IntRange(0, 6).Draw(t, label+".hasoffset") == 0 {
-		g.Offset = rapid.SampledFrom([]string{"30s", "1m", "0s"}).Draw(t, label+".offset")
+		g.Offset = rapid.SampledFrom([]string{"30s", "1m", "0s", "1m30s", "2h"}).Draw(t, label+".offset")
 	}
 	if rapid.IntRange(0, 4).Draw(t, label+".hasglab") == 0 {
 		g.Labels = [][2]string{{rapid.SampledFrom(LabelNames).Draw(t, label+".glk"), rapid.SampledFrom(LabelValues).Draw(t, label+".glv")}}
